@@ -5,6 +5,7 @@ package ice
 // C04 — connection state follows the documented lifecycle and liveness timing (SimNet solo, hook H1).
 
 import (
+	"math"
 	"fmt"
 	"strings"
 	"sync"
@@ -24,7 +25,16 @@ type c04Notif struct {
 	gettersOK bool
 }
 
-var c04Durations = []time.Duration{0, 50 * time.Millisecond, 200 * time.Millisecond, time.Second, 5 * time.Second, time.Minute, time.Hour}
+var c04Durations = []time.Duration{0, 50 * time.Millisecond, 200 * time.Millisecond, time.Second, 5 * time.Second, time.Minute, time.Hour, time.Duration(math.MaxInt64)}
+
+// c04Add adds durations without wrapping ("never" plus anything is still "never").
+func c04Add(a, b time.Duration) time.Duration {
+	if a > 0 && b > time.Duration(math.MaxInt64)-a {
+		return time.Duration(math.MaxInt64)
+	}
+
+	return a + b
+}
 
 func c04Allowed(from, to ConnectionState, dt time.Duration) bool {
 	if to == ConnectionStateClosed {
@@ -169,7 +179,7 @@ func TestVerif_C04_Lifecycle(t *testing.T) {
 				after := s.ag.state()
 				total := ft
 				if total != 0 {
-					total += effDT
+					total = c04Add(total, effDT)
 				}
 				// a threshold inside [silence−40 ms, silenceAfter+40 ms] cannot be judged, however slow the machine is
 				near := func(x time.Duration) bool {
@@ -288,7 +298,10 @@ func TestVerif_C04_Lifecycle(t *testing.T) {
 				if sp == nil || closed {
 					break
 				}
-				base := rapid.SampledFrom([]time.Duration{0, effDT, effDT + ft, ft}).Draw(rt, "silenceBase")
+				base := rapid.SampledFrom([]time.Duration{0, effDT, c04Add(effDT, ft), ft}).Draw(rt, "silenceBase")
+				if base > 1000*time.Hour {
+					base = 1000 * time.Hour // "never" thresholds: any finite silence is below them
+				}
 				delta := rapid.SampledFrom([]time.Duration{-60 * time.Millisecond, 60 * time.Millisecond, -time.Second, time.Second, 0}).Draw(rt, "silenceDelta")
 				mult := rapid.SampledFrom([]int{1, 1, 1, 10}).Draw(rt, "silenceMult")
 				sil := base*time.Duration(mult) + delta
